@@ -84,7 +84,8 @@ def check(ctx):
     pc.gram_cov(ctx, N, "NF-DIST")
 
 
-def _score_checks(ctx, N, cls, pkg, axis, S, name):
+def _score_checks(ctx, N, cls, pkg, axis, S, name, rule="R-ARGMAX"):
+    """the readers of the distance tables return the tables (shared with C06 for VoronoiFPS)"""
     P = ctx.P
     for meth in ("score", "get_distance"):
         I, st = ctx.interp(), State()
@@ -92,7 +93,7 @@ def _score_checks(ctx, N, cls, pkg, axis, S, name):
         o = ctx.bare_object(I, st, cls, {"_axis": axis, "hausdorff_": H})
         args = (arr("X", "N", "M"), arr("y", "N", "P")) if meth == "score" else ()
         r = ctx.call_method(I, st, o, meth, *args)
-        ctx.ob("R-ARGMAX", f"{name}.{pkg}.{meth} returns the distance table", r.term == H.term, f"returns {r.term!r}", ctx.site(P.method(cls, meth)), f"{pkg}")
+        ctx.ob(rule, f"{name}.{pkg}.{meth} returns the distance table", r.term == H.term, f"returns {r.term!r}", ctx.site(P.method(cls, meth)), f"{pkg}")
     # get_select_distance = hausdorff_at_select_[selected indices in order]
     I, st = ctx.interp(), State()
     Hs = arr("Hsel", S, inp=False)
@@ -100,7 +101,7 @@ def _score_checks(ctx, N, cls, pkg, axis, S, name):
     o = ctx.bare_object(I, st, cls, {"_axis": axis, "hausdorff_at_select_": Hs, "selected_idx_": sel, "support_": arr("support", S, inp=False, dtype="bool")})
     r = ctx.call_method(I, st, o, "get_select_distance")
     want = T("getitem", Hs.term, sel.term)
-    ctx.ob("R-ARGMAX", f"{name}.{pkg}.get_select_distance = table[selected_idx_ in selection order]", N.nf(r.term) == N.nf(want), f"returns {r.term!r}", ctx.site(P.method(cls, "get_select_distance")), pkg)
+    ctx.ob(rule, f"{name}.{pkg}.get_select_distance = table[selected_idx_ in selection order]", N.nf(r.term) == N.nf(want), f"returns {r.term!r}", ctx.site(P.method(cls, "get_select_distance")), pkg)
 
 
 def _init_checks(ctx, N, cls, pkg, axis, S, name, pcov):
